@@ -58,7 +58,7 @@ def marked_values(hist):
     return sorted(set(out))
 
 
-def place(env, Q, q, pos, kind):
+def place(env, Q, q, pos, kind, hist=()):
     P = env.P
     o = P.Table("ot")
     if pos == "top" or kind != "select":
@@ -68,7 +68,7 @@ def place(env, Q, q, pos, kind):
     if pos == "subquery-in":
         return Q.from_(o).select(o.k).where(o.j == 998).where(o.k.isin(q)).where(o.i == 997)
     if pos == "setop":
-        n = len(q._selects)
+        n = sum(len(c["terms"]) for c in hist if c["m"] == "select") or 1
         return q.union(Q.from_(o).select(*[o.field("k%d" % i) for i in range(n)]).where(o.j == 996)).limit(995)
     if pos == "cte":
         return Q.with_(q, "cq").from_(P.AliasedQuery("cq")).select("a").where(P.Field("a") == 994)
@@ -129,7 +129,7 @@ def run(tier: str) -> int:
                 if any(excs):
                     continue  # a rejected call: guards are C14's
                 try:
-                    obj = place(env, Q, q, pos, h["kind"])
+                    obj = place(env, Q, q, pos, h["kind"], h["hist"])
                     ctx = Q.SQL_CONTEXT
                     inline = obj.get_sql(ctx)
                     p = Parameterizer()
